@@ -137,9 +137,10 @@ class Visitor(ast.NodeVisitor):
         """Represent the call by dumping its source code."""
         if node in self._recomputed_values:
             value = self._recomputed_values[node]
-            text = self._atok.get_text(node)
 
-            self.reprs[text] = value
+            if _representable(value=value):
+                text = self._atok.get_text(node)
+                self.reprs[text] = value
 
         self.generic_visit(node=node)
 
@@ -177,9 +178,10 @@ class Visitor(ast.NodeVisitor):
         """Represent the subscript with its source code."""
         if node in self._recomputed_values:
             value = self._recomputed_values[node]
-            text = self._atok.get_text(node)
 
-            self.reprs[text] = value
+            if _representable(value=value):
+                text = self._atok.get_text(node)
+                self.reprs[text] = value
 
         self.generic_visit(node=node)
 
